@@ -22,7 +22,7 @@ func init() {
 }
 
 func runC14(r *report.Run) {
-	r.SetRule("race-detector build, child process per run: 16 query workers (cache on, every stamped query kind) x a reloader walking through generations (every other run with a 1 ms reload timeout so that reloads time out while still running; full reloads to new directories/files, partial reloads after a real ApplyDiff on the primary / file replacement, failing reloads: missing path, unreadable, missing validation key) x a ReportBackendStats ticker x a WatchDBAndReload watcher with a ReloadChan consumer x shutdown while queries are parked after reader acquisition (verif hook) and resumed afterwards; plus the production wiring (NewFBDNSDB with a 1 s periodic reload) shut down while a reload is parked in progress and the next tick is already pending; on CDB, RocksDB v1 and v2; repeated. Oracle: zero race-detector reports (deduplicated by entry-point pair), no panic/fatal error, every worker completes its fixed operation count before a generous watchdog. non-trivial = run in which queries and reloads really overlapped (measured: queries completed while a reload was in progress); distinct by (backend, repeat)")
+	r.SetRule("race-detector build, child process per run: 16 query workers (cache on, every stamped query kind) x a reloader walking through generations (every other run with a 1 ms reload timeout so that reloads time out while still running; full reloads to new directories/files, partial reloads after a real ApplyDiff on the primary / file replacement, failing reloads: missing path, unreadable, missing validation key) x a ReportBackendStats ticker x a WatchDBAndReload watcher with a ReloadChan consumer x shutdown while queries are parked after reader acquisition (verif hook) and resumed afterwards; plus the production wiring (NewFBDNSDB with a 1 s periodic reload) shut down while a reload is parked in progress and the next tick is already pending; on CDB, RocksDB v1 and v2; repeated. Oracle: zero race-detector reports (deduplicated by entry-point pair), no panic/fatal error, every worker completes its fixed operation count before a generous watchdog; a stand-still of the progress counters (queries, reloads, stats reports) for 20 s is examined structurally: a deadlock is reported only when in three goroutine dumps 2 s apart every goroutine inside the serving code is blocked acquiring a sync lock (at least a waiting writer and a waiting reader) or idle, none runs or sits in a system/cgo call, and the blocked stacks are identical. non-trivial = run in which queries and reloads really overlapped (measured: queries completed while a reload was in progress); distinct by (backend, repeat)")
 	r.Assume("GORACE=halt_on_error=0 with log files; reports are counted from the logs, never from exit codes; a watchdog firing without a crash is inconclusive")
 	repeats := r.Pick(2, 5)
 	gens := r.Pick(25, 120)
@@ -68,6 +68,11 @@ func runC14(r *report.Run) {
 		last := ""
 		if len(res.Journal) > 0 {
 			last = res.Journal[len(res.Journal)-1]
+		}
+		if res.Summary != nil && res.Summary["deadlock"] != nil {
+			r.Count("structural_deadlock_witnesses", 1)
+			r.Violation("", fmt.Sprintf("%s run %d: queries, reloads and the statistics reporter are deadlocked on the handler's locks (%v): no progress, and in three dumps 2 s apart every serving goroutine is blocked acquiring a lock:\n%v", o.b.Name, o.rep, res.Summary["deadlock_at"], res.Summary["deadlock"]), map[string]interface{}{"backend": o.b.Name, "witness": res.Summary["deadlock"]})
+			continue
 		}
 		if res.TimedOut {
 			r.Inconclusive(fmt.Sprintf("%s run %d: watchdog fired (last step: %s); no structural deadlock witness taken", o.b.Name, o.rep, last))
@@ -156,6 +161,10 @@ func c14Worker(args []string) int {
 	const workers = 16
 	perWorker := 40 * gens
 	reloadDone := make(chan struct{})
+	var reloadSteps int64
+	watchForLockDeadlock(func() int64 {
+		return atomic.LoadInt64(&queries) + atomic.LoadInt64(&statsReports) + atomic.LoadInt64(&reloadSteps) + atomic.LoadInt64(&watcherReloads)
+	}, 20*time.Second, func() string { return fmt.Sprintf("%s after %d reloads", bname, atomic.LoadInt64(&reloadSteps)) })
 	for c := 0; c < workers; c++ {
 		wg.Add(1)
 		go func(c int) {
@@ -226,6 +235,7 @@ func c14Worker(args []string) int {
 			fmt.Println("prepare:", err)
 		}
 		nreload++
+		atomic.AddInt64(&reloadSteps, 1)
 		time.Sleep(time.Duration(rng.Intn(1500)) * time.Microsecond)
 	}
 	close(reloadDone)
